@@ -903,16 +903,6 @@ func (wallet *Wallet) ProcWalletSetPasswd(Passwd *types.ReqWalletSetPasswd) erro
 	if !isValidPassWord(Passwd.NewPass) {
 		return types.ErrInvalidPassWord
 	}
-	//保存钱包的锁状态，需要暂时的解锁，函数退出时再恢复回去
-	tempislock := atomic.LoadInt32(&wallet.isWalletLocked)
-	//wallet.isWalletLocked = false
-	atomic.CompareAndSwapInt32(&wallet.isWalletLocked, 1, 0)
-
-	defer func() {
-		//wallet.isWalletLocked = tempislock
-		atomic.CompareAndSwapInt32(&wallet.isWalletLocked, 0, tempislock)
-	}()
-
 	// 钱包已经加密需要验证oldpass的正确性
 	if len(wallet.Password) == 0 && wallet.EncryptFlag == 1 {
 		isok := wallet.walletStore.VerifyPasswordHash(Passwd.OldPass)
@@ -941,7 +931,9 @@ func (wallet *Wallet) ProcWalletSetPasswd(Passwd *types.ReqWalletSetPasswd) erro
 		return err
 	}
 	//使用old密码解密seed然后用新的钱包密码重新加密seed
-	seed, err := wallet.getSeed(Passwd.OldPass)
+	// the seed is read straight from the store: the wallet is not unlocked, not even temporarily,
+	// for a password change (that the seed exists was checked above)
+	seed, err := GetSeed(wallet.walletStore.GetDB(), Passwd.OldPass)
 	if err != nil {
 		walletlog.Error("ProcWalletSetPasswd", "getSeed err", err)
 		return err
